@@ -217,8 +217,23 @@ theorem collect_filter (f : Field) (v : Int) (sub : Req) (docs : List Doc) :
         merge sub (if filterMatch f v d then ((1 : Nat), collectDoc (M := M) sub d) else (0, empty sub)).2 _) = _
       simp only [hm, Bool.false_eq_true, if_false, Nat.zero_add, empty_merge]
 
+theorem collect_topHits (f addr : Field) (k : Nat) (desc : Bool) (docs : List Doc) :
+    collect (M := M) (.topHits f addr k desc) docs = Hits.ofList (docs.flatMap (hitEntries f addr)) := by
+  induction docs with
+  | nil =>
+    apply Hits.ext'
+    show ([] : List HitE) = (isort (hitLe desc) []).take k
+    simp [isort]
+  | cons d ds ih =>
+    rw [collect_cons, ih, List.flatMap_cons, Hits.ofList_append]
+    rfl
+
 theorem collect_hist (p : HistP) (sub : Req) (docs : List Doc) :
     collect (M := M) (.hist p sub) docs = collectB sub (histPoss p) docs := rfl
+
+theorem collect_composite (srcs : List CompSrc) (size : Nat) (after : Option Int) (sub : Req)
+    (docs : List Doc) :
+    collect (M := M) (.composite srcs size after sub) docs = collectB sub (compKeys srcs) docs := rfl
 
 theorem collect_range (f : Field) (cuts : List Int) (sub : Req) (docs : List Doc) :
     collect (M := M) (.range f cuts sub) docs = collectB sub (rangeIdxs f cuts) docs := rfl
@@ -280,6 +295,8 @@ def DocOK : Req → Doc → Prop
   | .hist p sub, d => (histPoss p d).Nodup ∧ DocOK sub d
   | .range f cuts sub, d => (rangeIdxs f cuts d).Nodup ∧ DocOK sub d
   | .filter _ _ sub, d => DocOK sub d
+  | .topHits _ _ _ _, _ => True
+  | .composite srcs _ _ sub, d => (compKeys srcs d).Nodup ∧ DocOK sub d
 
 section final
 variable {M : Type} [AddOp M] [LawfulAddOp M]
@@ -378,6 +395,14 @@ theorem finalize_collect : ∀ (r : Req) (docs : List Doc), (∀ d ∈ docs, Doc
       have h0 : docs.filter (fun d => (histPoss p d).contains k) = [] := by simpa using he
       simp only [h0, List.length_nil]
       simp; omega
+  | .topHits f addr k desc, docs, _ => by
+    rw [collect_topHits]; rfl
+  | .composite srcs size after sub, docs, h => by
+    have ih : ∀ q : Doc → Bool, finalize sub (collect (M := M) sub (docs.filter q)) = evalAgg M sub (docs.filter q) :=
+      fun q => finalize_collect sub _ (docOK_filter q (fun d hd => (h d hd).2))
+    rw [collect_composite]
+    show compPage size after _ = compPage size after _
+    rw [entries_eq sub (compKeys srcs) docs (fun d hd => (h d hd).1) ih]
   | .terms p sub, docs, h => by
     have ih : ∀ q : Doc → Bool, finalize sub (collect (M := M) sub (docs.filter q)) = evalAgg M sub (docs.filter q) :=
       fun q => finalize_collect sub _ (docOK_filter q (fun d hd => h d hd))
